@@ -206,6 +206,13 @@ def evaluate(acc, factory, cols, rows, exprs):
 
 
 def lit(v):
+    try:
+        return _lit(v)
+    except Exception:
+        return repr(v)
+
+
+def _lit(v):
     if v is None:
         return 'NULL'
     if v is True:
@@ -219,7 +226,7 @@ def lit(v):
     if isinstance(v, DATE):
         return v.isoformat()
     if isinstance(v, (set, frozenset)):
-        return '{' + ', '.join(lit(i) for i in sorted(v)) + '}'
+        return '{' + ', '.join(_lit(i) for i in sorted(v)) + '}'
     return repr(v)
 
 
@@ -243,7 +250,7 @@ def eq(a, b):
     """== that treats an incomparable pair (signalling NaN) as different instead of raising."""
     try:
         return bool(a == b)
-    except decimal.InvalidOperation:
+    except Exception:          # signalling NaN, or a result of a foreign type whose == misbehaves
         return False
 
 
@@ -253,11 +260,19 @@ def same(got, exp):
 
 
 class Pred:
-    """Expectation that is not a single value: ``test(got)`` -> None if fine, else text of what was expected."""
-    __slots__ = ('test',)
+    """Expectation that is not a single value: ``test(got)`` -> None if fine, else text of what was expected.
+    A result of a foreign Python type (a list where a string or NULL is due, ...) on which the expectation itself
+    chokes is a wrong result of the implementation -- a violation, never a harness error."""
+    __slots__ = ('_test',)
 
     def __init__(self, test):
-        self.test = test
+        self._test = test
+
+    def test(self, got):
+        try:
+            return self._test(got)
+        except Exception as exc:
+            return f'a value of the announced type or NULL (checking the result failed with {type(exc).__name__}: {exc})'
 
 
 class Spec:
@@ -1111,7 +1126,7 @@ def sec_str_findfirst(acc, rows, params):
             if got is None:
                 hit = sorted(v for v in vals if rx.match(v))
                 return None if not hit else f'a member matching the pattern (e.g. {lit(hit[0])}), not NULL'
-            if got in vals and isinstance(got, str) and ref_search(p, got) is not None:
+            if isinstance(got, str) and got in vals and ref_search(p, got) is not None:
                 return None
             return 'a member of the set in which the pattern is found, or NULL'
         return Pred(test)
